@@ -208,23 +208,48 @@ unsafe impl<S: AsFd> OpCode for PathStat<S> {
 }
 
 #[cfg(linux_all)]
+impl<S1: AsFd, S2: AsFd> Splice<S1, S2> {
+    /// The ends to wait for. Regular files, directories and block devices are
+    /// always ready and cannot be registered with epoll (`EPERM`), so only the
+    /// ends that can be polled are waited for.
+    fn wait_args(&self) -> Vec<crate::sys::WaitArg> {
+        use crate::sys::WaitArg;
+
+        let pollable = |fd: BorrowedFd| {
+            !fs::fstat(fd).is_ok_and(|st| {
+                let ty = fs::FileType::from_raw_mode(st.st_mode);
+                ty.is_file() || ty.is_dir() || ty.is_block_device()
+            })
+        };
+        let (fd_in, fd_out) = (self.fd_in.as_fd(), self.fd_out.as_fd());
+        let mut args = Vec::with_capacity(2);
+        if pollable(fd_in) {
+            args.push(WaitArg::readable(fd_in.as_raw_fd()));
+        }
+        if pollable(fd_out) {
+            args.push(WaitArg::writable(fd_out.as_raw_fd()));
+        }
+        args
+    }
+}
+
+#[cfg(linux_all)]
 unsafe impl<S1: AsFd, S2: AsFd> OpCode for Splice<S1, S2> {
     type Control = ();
 
     fn pre_submit(&mut self, _: &mut Self::Control) -> io::Result<Decision> {
-        use crate::sys::WaitArg;
-
-        Ok(Decision::wait_for_many([
-            WaitArg::readable(self.fd_in.as_fd().as_raw_fd()),
-            WaitArg::writable(self.fd_out.as_fd().as_raw_fd()),
-        ]))
+        let args = self.wait_args();
+        Ok(if args.is_empty() {
+            // neither end can block (e.g. file to file, which the kernel rejects)
+            Decision::Blocking
+        } else {
+            Decision::wait_for_many(args)
+        })
     }
 
     fn op_type(&mut self, _: &mut Self::Control) -> Option<crate::OpType> {
-        Some(crate::OpType::multi_fd([
-            self.fd_in.as_fd().as_raw_fd(),
-            self.fd_out.as_fd().as_raw_fd(),
-        ]))
+        let args = self.wait_args();
+        (!args.is_empty()).then(|| crate::OpType::multi_fd(args.iter().map(|arg| arg.fd)))
     }
 
     fn operate(&mut self, control: &mut Self::Control) -> Poll<io::Result<usize>> {
